@@ -155,6 +155,49 @@ def ill_typed(pt, it):
         "/".join(sorted(str(k) for k in pks)), "/".join(sorted(iks)), "/".join(sorted(str(k) for k in pks)), ", ".join(sorted(allowed)) or "nothing")
 
 
+def _nullable(t):
+    return t is not None and t != TOP and t[0] == "obj" and "None" in t[1] and len(t[1]) > 1
+
+
+def _guarded_by_alias(f, call, e):
+    """`x = <e>` … `if x:` around the call: the test on the local copy of the same expression excludes None"""
+    txt = norm(e)
+    names = {norm(a.targets[0]) for a in walk_local(f.node)
+             if isinstance(a, ast.Assign) and len(a.targets) == 1 and isinstance(a.targets[0], ast.Name) and norm(a.value) == txt}
+    prev = call
+    for p in parent_chain(call):
+        if isinstance(p, ast.If) and any(prev is s_ for s_ in p.body):
+            tests = p.test.values if isinstance(p.test, ast.BoolOp) and isinstance(p.test.op, ast.And) else [p.test]
+            for t in tests:
+                if isinstance(t, ast.Name) and t.id in names:
+                    return True
+                if isinstance(t, ast.Compare) and len(t.ops) == 1 and isinstance(t.ops[0], ast.IsNot) and norm(t.left) in names \
+                        and isinstance(t.comparators[0], ast.Constant) and t.comparators[0].value is None:
+                    return True
+        prev = p
+    return False
+
+
+def _reaching_assign(node, name):
+    """the assignment to `name` that reaches `node` in straight-line code (nearest earlier sibling assignment in an enclosing block);
+    None when there is none or the nearest candidate is conditional"""
+    prev = node
+    for p in parent_chain(node):
+        for fld in ("body", "orelse", "finalbody"):
+            lst_ = getattr(p, fld, None)
+            if isinstance(lst_, list) and any(prev is s_ for s_ in lst_):
+                i = [k for k, s_ in enumerate(lst_) if prev is s_][0]
+                for s_ in reversed(lst_[:i]):
+                    if isinstance(s_, ast.Assign) and any(isinstance(t, ast.Name) and t.id == name for t in s_.targets):
+                        return s_
+                    if any(isinstance(x, ast.Name) and x.id == name and isinstance(x.ctx, ast.Store) for x in ast.walk(s_)):
+                        return None
+        if isinstance(p, (ast.FunctionDef, ast.AsyncFunctionDef)):
+            break
+        prev = p
+    return None
+
+
 def _is_closure_site(f, call):
     if f.name in CLOSURE_FUNCS:
         return True
@@ -190,6 +233,54 @@ def _typed_sites(ctx, R, rid, closure):
             if kinds_of(it) and pt is not None and pt != TOP and (pt == NONE or (pt[0] == "href" and pt[1])):
                 typed += 1
             R.ok(rid, "%s: %s" % (f.qualname, short(call, 50)), f.loc(call))
+    # references built around an item that may be None must not be returned without a validity test
+    by_func = {}
+    for f, call, pt, it, ty in sites:
+        if _is_closure_site(f, call) == closure:
+            by_func.setdefault(f.key, (f, []))[1].append((call, it))
+    m = 0
+    for key, (f, calls) in sorted(by_func.items()):
+        # OuterPin.instance / .inner_pin are nulled only when the pin is disconnected and dropped from its instance (C02-M2/M6), so an
+        # outer pin reached through a wire or an instance always has both
+        nullcap = {id(c) for c, it in calls if _nullable(it) and not _guarded_by_alias(f, c, c.args[1])
+                   and not (isinstance(c.args[1], ast.Attribute) and c.args[1].attr in ("instance", "inner_pin"))}
+        if not nullcap:
+            continue
+        memo = {}
+
+        def tainted(assign, depth=0):
+            if assign is None or depth > 6:
+                return False
+            if id(assign) in memo:
+                return memo[id(assign)]
+            memo[id(assign)] = False
+            v = assign.value
+            res = False
+            if isinstance(v, ast.Call) and _is_href_factory(v) and len(v.args) == 2:
+                if id(v) in nullcap:
+                    res = True
+                elif isinstance(v.args[0], ast.Name):
+                    res = tainted(_reaching_assign(assign, v.args[0].id), depth + 1)
+            memo[id(assign)] = res
+            return res
+
+        for y in walk_local(f.node):
+            if not isinstance(y, ast.Yield) or y.value is None:
+                continue
+            src = None
+            if isinstance(y.value, ast.Name):
+                src = _reaching_assign(y, y.value.id)
+            elif isinstance(y.value, ast.Call) and _is_href_factory(y.value) and id(y.value) in nullcap:
+                src = ast.Assign(targets=[], value=y.value)
+            if src is None:
+                continue
+            m += 1
+            if tainted(src):
+                R.bad(rid, "%s|nullable->yield %s" % (f.key, norm(y.value)), f.loc(y),
+                      "%s returns `%s`, a reference built around an element's parent link that can be None (the element was removed from its "
+                      "parent) with no test in between: an invalid hierarchical reference is returned" % (f.qualname, norm(y.value)))
+            else:
+                R.ok(rid, "%s: yield %s is not built around a possibly-None item" % (f.qualname, norm(y.value)), f.loc(y))
     return n, typed
 
 
@@ -247,6 +338,111 @@ def _h_yield_guards(ctx, R, rid):
                       "%s: `yield %s` (under `%s`) %s: the same hierarchical reference can be returned twice" % (raw.qualname, norm(y.value), " / ".join(ctxs), desc))
     R.count("yields in hierarchical raw generators", n)
     R.floor("yields in hierarchical raw generators", 35)
+
+
+def _validity_polarity(test, v):
+    """+1: the test being true means `v` is valid; -1: true means invalid; 0: not a validity test on v"""
+    t = test
+    neg = False
+    while isinstance(t, ast.UnaryOp) and isinstance(t.op, ast.Not):
+        neg = not neg
+        t = t.operand
+    pol = 0
+    if isinstance(t, ast.Attribute) and t.attr == "is_valid" and norm(t.value) == v:
+        pol = 1
+    elif isinstance(t, ast.Compare) and len(t.ops) == 1 and isinstance(t.left, ast.Attribute) and t.left.attr == "is_valid" \
+            and norm(t.left.value) == v and isinstance(t.comparators[0], ast.Constant) and isinstance(t.comparators[0].value, bool):
+        val = t.comparators[0].value
+        op = t.ops[0]
+        if isinstance(op, (ast.Is, ast.Eq)):
+            pol = 1 if val else -1
+        elif isinstance(op, (ast.IsNot, ast.NotEq)):
+            pol = -1 if val else 1
+    return -pol if neg else pol
+
+
+def _h_validated_roots(ctx, R, rid):
+    """a reference handed in by the caller (or queued earlier) is used only after its validity was tested: must-dataflow over the
+    CFG of each raw generator; state = (the work item is known to be a reference, it was found valid)"""
+    from ..cfg import cfg_of, forward, Branch, node_exprs
+    from .query_rules import _triple
+    P = ctx.P
+    n = 0
+    for m in H_MODULES:
+        mod = P.module(UTIL + m + ".py")
+        name, pub, mid, raw = _triple(mod)
+        work = None
+        for w in walk_local(raw.node):
+            if isinstance(w, ast.While) and isinstance(w.test, ast.Name) and w.body and isinstance(w.body[0], ast.Assign) \
+                    and isinstance(w.body[0].value, ast.Call) and isinstance(w.body[0].value.func, ast.Attribute) \
+                    and w.body[0].value.func.attr == "pop" and norm(w.body[0].value.func.value) == w.test.id \
+                    and isinstance(w.body[0].targets[0], ast.Name):
+                work = (w, w.body[0].targets[0].id)
+                break
+        if work is None:
+            raise AnalysisError("anchor vanished: the work loop `while <collection>: x = <collection>.pop()` of %s" % raw.qualname)
+        w, v = work
+        cfg = cfg_of(raw.node)
+
+        def transfer(node, st, v=v):
+            is_ref, valid = st
+            a = node.ast
+            if node.kind == "stmt" and isinstance(a, ast.Assign) and any(isinstance(t, ast.Name) and t.id == v for t in a.targets):
+                return (False, False)
+            if node.kind in ("test", "if", "while") or isinstance(a, ast.expr):
+                test = a if isinstance(a, ast.expr) else getattr(a, "test", None)
+                if test is None:
+                    return st
+                if isinstance(test, ast.Call) and norm(test.func) == "isinstance" and len(test.args) == 2 and norm(test.args[0]) == v \
+                        and norm(test.args[1]).split(".")[-1] == "HRef":
+                    return Branch({"true": (True, valid), "false": (False, valid), None: st})
+                conj = test.values if isinstance(test, ast.BoolOp) and isinstance(test.op, ast.And) else [test]
+                pols = [_validity_polarity(c, v) for c in conj]
+                if 1 in pols:
+                    return Branch({"true": (is_ref, True), None: st})
+                if len(conj) == 1 and pols[0] == -1:
+                    return Branch({"true": st, "false": (is_ref, True), None: st})
+            return st
+
+        state = forward(cfg, (False, False), transfer, lambda a, b: (a[0] and b[0], a[1] and b[1]), follow=lambda a_, b_, lab: lab != "exc")
+        tests = 0
+        bad = []
+        for node in cfg.nodes:
+            if node.id not in state:
+                continue
+            is_ref, valid = state[node.id]
+            exprs, targets = node_exprs(node)
+            for e in exprs:
+                for x in ast.walk(e):
+                    if isinstance(x, ast.Attribute) and x.attr == "is_valid" and norm(x.value) == v:
+                        tests += 1
+            if not is_ref or valid:
+                continue
+            for e in exprs:
+                par = {}
+                for x in ast.walk(e):
+                    for c in ast.iter_child_nodes(x):
+                        par[id(c)] = x
+                for x in ast.walk(e):
+                    if isinstance(x, ast.Name) and x.id == v and isinstance(x.ctx, ast.Load):
+                        p_ = par.get(id(x))
+                        if isinstance(p_, ast.Attribute) and p_.attr in ("is_valid", "item", "parent"):
+                            continue  # looking at the reference is harmless; handing it on is not
+                        if isinstance(p_, ast.Call) and norm(p_.func) == "isinstance":
+                            continue
+                        bad.append((node, e))
+        n += 1
+        if tests == 0:
+            R.bad(rid, "%s|no-validity-test" % raw.key, raw.loc(w), "%s never tests `%s.is_valid`: references to elements that were removed since are processed like live ones" % (raw.qualname, v))
+        elif bad:
+            node, e = bad[0]
+            R.bad(rid, "%s|unvalidated use" % raw.key, raw.loc(node.ast),
+                  "%s uses the reference `%s` in `%s` on a path on which its validity was not tested (%d such use(s)): a reference that an edit has made "
+                  "stale is traversed or returned" % (raw.qualname, v, short(e, 50), len(bad)))
+        else:
+            R.ok(rid, "%s: every use of a reference taken from the work list follows its validity test" % raw.qualname, raw.loc(w))
+    R.count("raw generators with a validated work list", n)
+    R.floor("raw generators with a validated work list", 5)
 
 
 # ------------------------------------------------------------------------------------------------
@@ -453,6 +649,8 @@ def check_c11(ctx, R):
     _worklist_closure(ctx, R, "H7b")
     R.rule("H11", "no occurrence is reported twice: every yield of the hierarchical queries is de-duplicated on the value it yields")
     _h_yield_guards(ctx, R, "H11")
+    R.rule("H12", "a reference taken from the caller or the work list is used only after its validity test, for every item kind")
+    _h_validated_roots(ctx, R, "H12")
     # H8
     R.rule("H8", "the ancestor walks of is_valid / is_unique use the cursor variable, not self")
     for pname in ("is_valid", "is_unique"):
